@@ -109,6 +109,9 @@ pub struct ShardResult {
     pub inconclusive_notes: Vec<String>,
     /// set by a shard that could not run at all (harness fault)
     pub harness_fault: Option<String>,
+    /// set when the shard stopped at a watchdog expiry: index of the next case to run
+    #[serde(default)]
+    pub resume_at: Option<u64>,
 }
 
 impl ShardResult {
@@ -192,9 +195,67 @@ pub struct ShardCtx {
     pub nshards: u64,
     pub start: Instant,
     pub budget: Duration,
+    /// first case index to run (> 0 when the shard was restarted after a watchdog expiry)
+    pub first_index: u64,
+}
+
+struct WatchState {
+    started: Option<Instant>,
+    index: u64,
+    desc: String,
+    snapshot: Option<ShardResult>,
+    limit: Duration,
+    out: PathBuf,
+    hang_dir: PathBuf,
+}
+
+static WATCH: std::sync::Mutex<Option<WatchState>> = std::sync::Mutex::new(None);
+
+/// Exit code of a shard that gave up on a case after the per-case watchdog expired.
+pub const EXIT_WATCHDOG: i32 = 77;
+
+/// Start the per-case watchdog of a shard process. A case that runs longer than `limit`
+/// (possible non-termination inside the code under test) ends the process with
+/// EXIT_WATCHDOG after the last snapshot of the results has been written; the orchestrator
+/// restarts the shard at the next case. Expiry is recorded as inconclusive, never a violation.
+pub fn start_watchdog(ctx: &ShardCtx, out: &Path, limit: Duration) {
+    *WATCH.lock().unwrap() = Some(WatchState { started: None, index: 0, desc: String::new(), snapshot: None, limit, out: out.to_path_buf(), hang_dir: work_dir("hangs") });
+    let prop = ctx.prop.clone();
+    let shard = ctx.shard;
+    std::thread::spawn(move || loop {
+        std::thread::sleep(Duration::from_millis(500));
+        let mut g = WATCH.lock().unwrap();
+        let Some(w) = g.as_mut() else { continue };
+        let Some(st) = w.started else { continue };
+        if st.elapsed() > w.limit {
+            let mut res = w.snapshot.take().unwrap_or_default();
+            let file = w.hang_dir.join(format!("{prop}_shard{shard}_case{}.txt", w.index));
+            let _ = std::fs::write(&file, &w.desc);
+            res.count("watchdog_expired");
+            res.inconclusive(format!("case {} exceeded the {} s per-case watchdog (possible non-termination); input saved to {}", w.index, w.limit.as_secs(), file.display()));
+            res.resume_at = Some(w.index + 1);
+            let _ = std::fs::write(&w.out, serde_json::to_string(&res).unwrap());
+            std::process::exit(EXIT_WATCHDOG);
+        }
+    });
 }
 
 impl ShardCtx {
+    /// Mark the start of a (potentially non-terminating) case; `res` is snapshotted so that
+    /// nothing observed so far is lost if the watchdog has to end the process.
+    pub fn begin_case(&self, index: u64, desc: &str, res: &ShardResult) {
+        if let Some(w) = WATCH.lock().unwrap().as_mut() {
+            w.started = Some(Instant::now());
+            w.index = index;
+            w.desc = desc.to_string();
+            w.snapshot = Some(res.clone());
+        }
+    }
+    pub fn end_case(&self) {
+        if let Some(w) = WATCH.lock().unwrap().as_mut() {
+            w.started = None;
+        }
+    }
     pub fn time_left(&self) -> bool {
         self.start.elapsed() < self.budget
     }
@@ -383,7 +444,103 @@ pub fn finish(meta: &PropertyMeta, tier: Tier, seed: u64, wall: f64, mut res: Sh
 // ------------------------------------------------------------------------------------------
 // Process sharding: re-exec self as `swverif shard <prop> <tier> <seed> <shard> <nshards> <budget_ms> <out>`
 
+fn spawn_shard(prop: &str, tier: Tier, seed: u64, shard: u64, nshards: u64, budget: Duration, mem_limit_gib: u64, first_index: u64, attempt: u32) -> (std::process::Child, PathBuf) {
+    let exe = std::env::current_exe().expect("current_exe");
+    let wd = work_dir(prop);
+    let out = wd.join(format!("shard{shard}.result{attempt}.json"));
+    let log = std::fs::OpenOptions::new().create(true).append(true).open(wd.join(format!("shard{shard}.log"))).unwrap();
+    let log2 = log.try_clone().unwrap();
+    let mut cmd = std::process::Command::new(&exe);
+    cmd.arg("shard")
+        .arg(prop)
+        .arg(tier.name())
+        .arg(seed.to_string())
+        .arg(shard.to_string())
+        .arg(nshards.to_string())
+        .arg(budget.as_millis().to_string())
+        .arg(&out)
+        .env("SWVERIF_MEM_GIB", mem_limit_gib.to_string())
+        .env("SWVERIF_FIRST_INDEX", first_index.to_string())
+        .stdout(log)
+        .stderr(log2)
+        .stdin(std::process::Stdio::null());
+    (cmd.spawn().expect("spawn shard"), out)
+}
+
+/// Run `nshards` shard processes; a shard that stops at a per-case watchdog expiry
+/// (EXIT_WATCHDOG) is restarted at the next case for the rest of its budget.
 pub fn run_sharded(prop: &str, tier: Tier, seed: u64, nshards: u64, budget: Duration, mem_limit_gib: u64) -> ShardResult {
+    let wd = work_dir(prop);
+    clean_dir(&wd);
+    let start = Instant::now();
+    struct Running {
+        shard: u64,
+        child: std::process::Child,
+        out: PathBuf,
+        attempt: u32,
+    }
+    let mut running: Vec<Running> = (0..nshards)
+        .map(|shard| {
+            let (child, out) = spawn_shard(prop, tier, seed, shard, nshards, budget, mem_limit_gib, 0, 0);
+            Running { shard, child, out, attempt: 0 }
+        })
+        .collect();
+    let mut total = ShardResult::default();
+    // generous wall-clock watchdog for a whole shard: expiry => inconclusive, never a violation
+    let watchdog = budget * 6 + Duration::from_secs(900);
+    while !running.is_empty() {
+        std::thread::sleep(Duration::from_millis(50));
+        let mut still = vec![];
+        for mut r in running.drain(..) {
+            let status = match r.child.try_wait() {
+                Ok(Some(st)) => Some(st),
+                Ok(None) => {
+                    if start.elapsed() > watchdog {
+                        let _ = r.child.kill();
+                        let _ = r.child.wait();
+                        None
+                    } else {
+                        still.push(r);
+                        continue;
+                    }
+                }
+                Err(_) => None,
+            };
+            let parsed: Option<ShardResult> = std::fs::read_to_string(&r.out).ok().and_then(|s| serde_json::from_str(&s).ok());
+            match (status, parsed) {
+                (Some(st), Some(res)) if st.success() => total.merge(res),
+                (Some(st), Some(res)) if st.code() == Some(EXIT_WATCHDOG) => {
+                    let resume = res.resume_at;
+                    total.merge(res);
+                    let left = budget.checked_sub(start.elapsed()).unwrap_or_default();
+                    if let (Some(idx), true) = (resume, left > Duration::from_secs(5) && r.attempt < 50) {
+                        let (child, out) = spawn_shard(prop, tier, seed, r.shard, nshards, left, mem_limit_gib, idx, r.attempt + 1);
+                        still.push(Running { shard: r.shard, child, out, attempt: r.attempt + 1 });
+                    }
+                }
+                (st, partial) => {
+                    // the shard died (abort, memory limit, stack overflow) or hit the shard watchdog
+                    let cur = std::fs::read_to_string(wd.join(format!("shard{}.current", r.shard))).unwrap_or_default();
+                    total.inconclusive(format!("shard {} ended abnormally ({st:?}); case in flight: {}", r.shard, cur.chars().take(300).collect::<String>()));
+                    total.count("shards_crashed");
+                    if let Some(res) = partial {
+                        total.merge(res);
+                    } else if let Ok(s) = std::fs::read_to_string(wd.join(format!("shard{}.partial.json", r.shard))) {
+                        if let Ok(res) = serde_json::from_str::<ShardResult>(&s) {
+                            total.merge(res);
+                        }
+                    }
+                }
+            }
+        }
+        running = still;
+    }
+    total.resume_at = None;
+    total
+}
+
+#[allow(dead_code)]
+fn run_sharded_old(prop: &str, tier: Tier, seed: u64, nshards: u64, budget: Duration, mem_limit_gib: u64) -> ShardResult {
     let exe = std::env::current_exe().expect("current_exe");
     let wd = work_dir(prop);
     clean_dir(&wd);
